@@ -10,7 +10,7 @@ PROP = {'rule': 'rapid-generated cases. cacheHistory: state machine (~40 steps) 
          'assigned pods and allocated amounts the model gave it when taken; non-trivial = history contains assign -> reservation becomes unavailable/unmatchable -> unassign, '
          'or a reservation deleted while holding pods. fit: (reserved dims incl. optional pods, policy, restricted option, inner reserved, '
          '0-3 pods assigned through AddAssignedPod, preemptible amounts, request aimed at the exact boundary); non-trivial = some counted '
-         'dimension requested within 1 unit of the remaining room. nominate: 1-3 reservations on 2 nodes, 2-5 scheduling cycles '
+         'dimension requested within 1 unit of the remaining room. fitFractional: the same fit check (Restricted, 0-2 assigned pods) on amounts drawn in milli-units: status.allocatable, memory and cpu requests arbitrary milli amounts, extended-resource requests whole pieces; non-trivial = a boundary request on a non-cpu dimension where the reserved, allocated or requested amount is not a whole unit. nominate: 1-3 reservations on 2 nodes, 2-5 scheduling cycles '
          '(BeforePreFilter, PreFilter, Filter, optional PreScore, Reserve) with reservation-update / bind / Unreserve / pod-delete / '
          'reservation-succeeded events in between, Unreserve alternately before and after the plugin\'s own PreBind, and a ledger check (assigned set and allocated == sum of the model pods) after every cycle and event; non-trivial = a cycle whose pod has reservation affinity and exactly one matched '
          'reservation on the chosen node. multiProfile: 1-3 scheduler profiles, each with its own real Reservation plugin and cache, '
@@ -35,16 +35,17 @@ PROP = {'rule': 'rapid-generated cases. cacheHistory: state machine (~40 steps) 
                  'handler by more than the current event',
                  'multiProfile: "no longer exists" is asserted for reservations deleted from the API; a reservation that still exists but is no '
                  'longer Available on a node (terminated, rolled back) and is still known to some profile is only counted',
-                 'requests are whole milli-cores / bytes / pieces (what the API server admits), so milli-unit integer arithmetic is exact',
+                 'requests are whole milli-cores / bytes / pieces in every unit but fitFractional, which draws milli amounts for memory requests and for status.allocatable (the API server admits fractional memory with a warning and nothing validates a Reservation status) while extended-resource requests stay whole pieces; milli-unit integer arithmetic is exact in both',
                  'owner specifications are syntactically valid label selectors; reservation-operating-mode pods and the cluster '
                  'pre-allocation mode are not generated',
                  'the fit check is asserted in both directions (accepted iff every counted dimension and the pods dimension fit); the '
                  'statement itself only requires the "accepted only if" direction (signatures fit:accepted-* / fit:restricted-admitted-*)'],
  'units': [{'name': 'plugin',
             'pkg': 'pkg/scheduler/plugins/reservation',
-            'files': ['C05/c05_cache_test.go', 'C05/c05_nominate_test.go', 'C05/c05_multiprofile_test.go', 'C05/c05_prealloc_test.go'],
+            'files': ['C05/c05_cache_test.go', 'C05/c05_nominate_test.go', 'C05/c05_multiprofile_test.go', 'C05/c05_prealloc_test.go', 'C05/c05_fitfrac_test.go'],
             'tests': [{'run': 'TestVerifC05CacheHistory', 'quick': 4000, 'thorough': 20000, 'steps': 40},
                       {'run': 'TestVerifC05Fit', 'quick': 10000, 'thorough': 80000},
+                      {'run': 'TestVerifC05FitFractional', 'quick': 10000, 'thorough': 80000},
                       {'run': 'TestVerifC05Nominate', 'quick': 2000, 'thorough': 8000},
                       {'run': 'TestVerifC05MultiProfile', 'quick': 2000, 'thorough': 8000, 'steps': 25},
                       {'run': 'TestVerifC05PreAllocation', 'quick': 3000, 'thorough': 12000}]},
